@@ -332,6 +332,12 @@ class Rewriter:
         if part == 'sig' and '&dyn Fn' in text:
             text = text.replace('&dyn Fn', '&impl Fn')
             self.log.append(('R2', fid, '&dyn Fn -> &impl Fn'))
+        if part == 'body' and 'println!' in text:
+            # R17  diagnostic `println!( .. );` statements are dropped (formatting / stdout are outside the verifier)
+            def r17(mm):
+                self.log.append(('R17', fid, 'println! statement dropped'))
+                return mm.group(1) + '/* println! dropped (R17) */' + '\n' * mm.group(0).count('\n')
+            text = re.sub(r'(?m)(^\s*)println!\s*\((?:[^;]|\n)*?\)\s*;', r17, text)
         if part == 'body' and 'f64::EPSILON' in text:
             # R16  f64::EPSILON -> f64_epsilon()  (associated constants of primitive types are unsupported)
             text = text.replace('f64::EPSILON', 'f64_epsilon()')
